@@ -589,7 +589,8 @@ fn validity_class(l: &[V], r: &[V]) -> &'static str {
 
 /// visit every pair of struct / list arrays that merge()/merge_with_schema() match up, together with
 /// per-slot masks "all ancestors valid" for either side
-fn matched_levels(l: &dyn Array, r: &dyn Array, lt: &Ty, rt: &Ty, lmask: &[bool], rmask: &[bool], depth: usize, f: &mut dyn FnMut(&dyn Array, &dyn Array, &[bool], &[bool], usize)) {
+#[allow(clippy::too_many_arguments)]
+fn matched_levels(l: &dyn Array, r: &dyn Array, lt: &Ty, rt: &Ty, lmask: &[bool], rmask: &[bool], depth: usize, untrimmed: bool, f: &mut dyn FnMut(&dyn Array, &dyn Array, &[bool], &[bool], usize)) {
     let below = |a: &dyn Array, m: &[bool]| -> Vec<bool> { (0..a.len()).map(|i| m[i] && a.is_valid(i)).collect() };
     match (lt, rt) {
         (Ty::Struct(lf), Ty::Struct(rf)) => {
@@ -598,15 +599,20 @@ fn matched_levels(l: &dyn Array, r: &dyn Array, lt: &Ty, rt: &Ty, lmask: &[bool]
             let (lm, rm) = (below(l, lmask), below(r, rmask));
             for (k, (n, t)) in lf.iter().enumerate() {
                 if let Some(j) = rf.iter().position(|(rn, _)| rn == n) {
-                    matched_levels(ls.column(k).as_ref(), rs.column(j).as_ref(), t, &rf[j].1, &lm, &rm, depth + 1, f);
+                    matched_levels(ls.column(k).as_ref(), rs.column(j).as_ref(), t, &rf[j].1, &lm, &rm, depth + 1, untrimmed, f);
                 }
             }
         }
         (Ty::List(lc), Ty::List(rc)) => {
             let (ll, rl) = (l.as_list::<i32>(), r.as_list::<i32>());
             f(l, r, lmask, rmask, depth);
-            let (lv, rv) = (ll.trimmed_values(), rl.trimmed_values());
-            if lv.len() == rv.len() {
+            // merge() hands the whole values arrays of both lists to the struct merge (items outside a
+            // slice included); merge_with_schema() trims them first
+            let (lv, rv) = if untrimmed { (ll.values().clone(), rl.values().clone()) } else { (ll.trimmed_values(), rl.trimmed_values()) };
+            if untrimmed && lv.len() == rv.len() {
+                let all = vec![true; lv.len()];
+                matched_levels(lv.as_ref(), rv.as_ref(), lc, rc, &all, &all, depth + 1, untrimmed, f);
+            } else if lv.len() == rv.len() {
                 let item_mask = |a: &ListArray, m: &[bool]| -> Vec<bool> {
                     let mut out = vec![];
                     for i in 0..a.len() {
@@ -616,7 +622,7 @@ fn matched_levels(l: &dyn Array, r: &dyn Array, lt: &Ty, rt: &Ty, lmask: &[bool]
                     }
                     out
                 };
-                matched_levels(lv.as_ref(), rv.as_ref(), lc, rc, &item_mask(ll, lmask), &item_mask(rl, rmask), depth + 1, f);
+                matched_levels(lv.as_ref(), rv.as_ref(), lc, rc, &item_mask(ll, lmask), &item_mask(rl, rmask), depth + 1, untrimmed, f);
             }
         }
         _ => {}
@@ -625,12 +631,12 @@ fn matched_levels(l: &dyn Array, r: &dyn Array, lt: &Ty, rt: &Ty, lmask: &[bool]
 
 /// structural root-cause class of a failing merge input (used as classification key); evaluated on
 /// the unsliced twin of the input
-fn merge_cause(la: &ArrayRef, ra: &ArrayRef, lt: &Ty, rt: &Ty) -> &'static str {
+fn merge_cause(la: &ArrayRef, ra: &ArrayRef, lt: &Ty, rt: &Ty, untrimmed: bool) -> &'static str {
     let mut both_all_null = false;
     let mut absent_vs_nulls = false;
     let mut valid_under_null_parent = false;
     let (lm, rm) = (vec![true; la.len()], vec![true; ra.len()]);
-    matched_levels(la.as_ref(), ra.as_ref(), lt, rt, &lm, &rm, 0, &mut |l, r, lmask, rmask, depth| {
+    matched_levels(la.as_ref(), ra.as_ref(), lt, rt, &lm, &rm, 0, untrimmed, &mut |l, r, lmask, rmask, depth| {
         let n = l.len();
         if n == 0 {
             return;
@@ -647,11 +653,11 @@ fn merge_cause(la: &ArrayRef, ra: &ArrayRef, lt: &Ty, rt: &Ty) -> &'static str {
         }
     });
     if both_all_null {
-        "null-on-both-sides-in-every-row"
+        "struct-null-on-both-sides-in-every-row-becomes-valid"
     } else if absent_vs_nulls {
-        "one-side-without-null-buffer-other-partly-null"
+        "side-without-null-buffer-loses-to-partly-null-side"
     } else if valid_under_null_parent {
-        "nested-valid-under-null-parent"
+        "nested-struct-valid-under-null-parent-not-masked"
     } else {
         "other"
     }
@@ -747,24 +753,34 @@ fn run_merge(s: &mut Sink, scn: &MergeScn, si: usize, n: usize, lefts: &[(usize,
             for helper in ["merge", "merge_with_schema"] {
                 s.cov.evaluations += 1;
                 let Some((kind, detail)) = merge_once(helper, scn, &schema, la, ra, &p, &q, &want) else { continue };
-                // classification: a failure is slice-specific iff the unsliced twin of the input (same
-                // values, same null-buffer presence, offset 0, zero-based list offsets) behaves differently
+                // ---- root cause, derived from the input shape that is necessary for the failure ----
+                // the unsliced twin has the same values and null-buffer presence at offset 0 with
+                // zero-based list offsets: if it merges correctly, slicing is what breaks the input
                 let (lt2, rt2) = (rebuild(la.as_ref()), rebuild(ra.as_ref()));
-                let cause = if (*lsl || *rsl) && merge_once(helper, scn, &schema, &lt2, &rt2, &p, &q, &want) != Some((kind.clone(), detail.clone())) {
-                    "sliced-input"
+                let sliced = *lsl || *rsl;
+                let twin_ok = sliced && merge_once(helper, scn, &schema, &lt2, &rt2, &p, &q, &want).is_none();
+                let cause = if kind == "columns" {
+                    "identical-list-struct-column-emitted-twice"
+                } else if twin_ok {
+                    if !scn.list {
+                        "sliced-struct-child-validity-misaligned"
+                    } else if helper == "merge_with_schema" {
+                        "sliced-list-offsets-not-rebased"
+                    } else {
+                        // merge() sees the items outside the slice too: classify on the whole values arrays
+                        match merge_cause(la, ra, &scn.left, &scn.right, true) {
+                            "other" => "sliced-list-of-struct",
+                            c => c,
+                        }
+                    }
                 } else {
-                    merge_cause(&lt2, &rt2, &scn.left, &scn.right)
+                    merge_cause(&lt2, &rt2, &scn.left, &scn.right, false)
                 };
-                let family = if scn.list { "list-of-struct" } else { "struct" };
-                let key_shape = if kind == "values" {
-                    format!("{family}/{cause}")
-                } else if kind == "columns" {
-                    format!("{family}/duplicate-column")
-                } else {
-                    format!("{family}/{cause}/{kind}")
-                };
+                let key_shape = cause.to_string();
+                let detail = format!("{detail} [{kind}; {} columns, scenario {}]", if scn.list { "list-of-struct" } else { "struct" }, scn.name);
+                s.cov.outcome(&format!("merge-failure:{cause}:{helper}:{kind}"));
                 s.bad(
-                    helper,
+                    "merge",
                     &key_shape,
                     format!("{helper}: left [{}] right [{}] {detail}", show_rows(&lrows), show_rows(rrows)),
                     json!({"helper": helper, "scenario": scn.name, "n": n, "left_index": li, "right_index": ri, "left": describe(la.as_ref(), *lsl), "right": describe(ra.as_ref(), *rsl)}),
